@@ -320,6 +320,23 @@ def switchx(tier: str = 'quick') -> t.List[dict]:
                 x = b.consumer('X', [['c', 'switch', sw('swx', d, c1, c2)]])
                 y = b.consumer('Y', [['c', 'switch', sw('swy', d, c1, b.cand('leaf'))]])
                 emit(b, b.consumer('O', [['x_', 'in', x], ['y_', 'in', y]]))
+                # two switches sharing a case that is ALSO consumed directly (started outside the switches), with the
+                # same decider and with two deciders (so that only one of the switches may select the shared case)
+                for two_deciders in (False, True):
+                    if q and (s1 not in ('leaf', 'chain', 'sh') or s2 != 'leaf' or dec == 'shared'):
+                        continue        # three-way fan-in with large case sub-pipelines: thorough tier only
+                    if s1 in ('relay', 'sh-relay') or s2 not in ('leaf', 'sh'):
+                        continue
+                    b, d, c1, c2 = mk()
+                    d2 = b.node('T', 'I') if two_deciders else d
+                    x = b.consumer('X', [['c', 'switch', sw('swx', d, c1, c2)]])
+                    y = b.consumer('Y', [['c', 'switch', sw('swy', d2, c1, b.cand('leaf'))]])
+                    emit(b, b.consumer('O', [['x_', 'in', x], ['y_', 'in', y], ['d_', 'in', c1]]))
+                    b, d, c1, c2 = mk()
+                    d2 = b.node('T', 'I') if two_deciders else d
+                    x = b.consumer('X', [['c', 'switch', sw('swx', d, c2, c1)]])
+                    y = b.consumer('Y', [['c', 'switch', sw('swy', d2, c1, b.cand('leaf'))]])
+                    emit(b, b.consumer('O', [['d_', 'in', c1], ['y_', 'in', y], ['x_', 'in', x]]))
                 # nested: the inner switch's consumer is case 'a' of the outer switch
                 b, d, c1, c2 = mk()
                 n = b.consumer('N', [['c', 'switch', sw('inner', d, c1, c2)]])
